@@ -37,7 +37,7 @@ type c01Conc struct {
 	At    int `json:"at"`
 }
 
-var c01ReqNames = []string{"", "eth_call(probe)@latest", "eth_call(probe)@latest-1", "estimateGas(sstore)@latest", "eth_call(suicide)@latest-1", "CheckTx(transfer)"}
+var c01ReqNames = []string{"", "eth_call(probe)@latest", "eth_call(probe)@latest-1", "estimateGas(sstore)@latest", "eth_call(suicide)@latest-1", "CheckTx(transfer)", "eth_call(sclear)@latest"}
 
 // c01Request serves one request through the entry points a node uses for it (BaseApp.Query / BaseApp.CheckTx).
 func c01Request(w *world.World, which int) {
@@ -62,6 +62,8 @@ func c01Request(w *world.World, which int) {
 		query("/ethermint.evm.v1.Query/EstimateGas", 0, map[string]interface{}{"from": from, "to": AddrSstore.Hex()})
 	case 4:
 		query("/ethermint.evm.v1.Query/EthCall", older, map[string]interface{}{"from": from, "to": AddrSuicide.Hex(), "gas": "0x30d40"})
+	case 6: // reads and writes the storage of another contract than any tx of the histories (a storage key prefix built for another address)
+		query("/ethermint.evm.v1.Query/EthCall", 0, map[string]interface{}{"from": from, "to": AddrSclear.Hex(), "gas": "0x30d40"})
 	case 5:
 		base := w.App.FeeMarketKeeper.GetBaseFee(w.Ctx()).BigInt()
 		tx := BuildTx(w, TxSpec{Kind: KTransfer, Sender: 3, Nonce: w.Nonce(w.Ctx(), w.Wallets[3].Eth())}, base)
@@ -106,12 +108,12 @@ func c01ConcUnits(thorough bool) []c01ConcUnit {
 			orders = []int{0, 2} // the order of the fork's precompile map matters only where the access list is observable
 		}
 		if thorough {
-			reqs = []int{1, 2, 3, 4, 5}
+			reqs = []int{1, 2, 3, 4, 5, 6}
 			if probe {
 				orders = []int{0, 1, 2}
 			}
 		} else if !probe {
-			reqs = []int{2}
+			reqs = []int{2, 6}
 		}
 		_ = hi
 		for _, o := range orders {
